@@ -27,7 +27,7 @@ SPEC = {
         "correspondence harness/cmd/c30 vs Driver/C30.lean (runScript): ExecWithTimeout on bash scripts whose leader and "
         "background children ignore SIGTERM / hold or give up the output pipes / exit early or never; outcome "
         "(normal|timeout) and number of marked survivors 600 ms after the return",
-        "direct oracle: a timed-out action returns within deadline+1030 ms (+2.5 s slack, one-sided) and leaves no marked "
+        "direct oracle: a timed-out action returns within deadline+1030 ms (+4 s slack, one-sided) and leaves no marked "
         "process; no action leaves a marked process after being reported finished; survivors by C30MARK in "
         "/proc/<pid>/environ (never by command line), killed by pid; a miss is re-run alone three times",
         "kernel assumptions (DESIGN 3): kill(-pgid, SIGKILL) ends every current member of the group, fork cannot escape a "
@@ -43,5 +43,16 @@ SPEC = {
 }
 
 MUTATIONS = """
-(filled in after the dry-runs)
+Dry-runs on scratch copies (VERIF_REPO=/var/tmp/mC30_*; ./check C30 quick, inbox findings loaded):
+M1 killProcess: second round sends SIGTERM instead of SIGKILL      exit 1: signals fact differs (11/12), 5 disagreements,
+                                                                   `group-member-survives-timeout` (TERM-ignoring tree alive after the return)
+M2 sendSignal: syscall.Kill(-pid) -> syscall.Kill(pid)             exit 1: killsGroup fact false, 13 disagreements,
+                                                                   `group-member-survives-timeout` (background children outlive the timeout)
+M3 ExecCommand: Setpgid true -> false                              exit 1: setpgid fact false, 23 disagreements, `group-member-survives-timeout`
+M4 killProcess: SIGKILL wait time.Second -> 10*time.Second         exit 1: killWait fact 10000 > 2000 (10/12), `timeout-reported-too-late`
+                                                                   (reported ~11 s after a 0.7 s deadline; the miss reproduced on 3 re-runs alone)
+H1 harmless: rename the local `success` -> `termOK`                exit 0.  (A first attempt, run at load average > 250 with 700 ms
+                                                                   timeouts, exited 1: one case whose leader exits at 200 ms was reported as a
+                                                                   timeout on all four attempts - bash needed > 700 ms to start.  Timeouts are
+                                                                   now 2-3 s against scripted exits of at most 200 ms; re-run: exit 0.)
 """
